@@ -117,6 +117,34 @@ def events(b, fa=None):
             elif cfg.find_path(b, [0], [i], removed_edges=[sw["false_edge"]]) is None:
                 ev["branch"] = "edge"
         ev["follow"] = any(cfg.find_path(b, [0], [i], removed_edges=[sw["true_edge"]]) is None for sw in follow_sw)
+        # what else decides this push?  Allowed deciders: the is_node test, the follow flag, and - for an index the
+        # graph returned as a Result/Option - the validity test of that very index.  Anything else (e.g. "skip the
+        # target of a self-loop") removes reachable elements from some traversals.
+        known = {sw["bb"] for sw in node_sw + follow_sw if "bb" in sw}
+        known |= {sw["true_edge"][0] for sw in node_sw + follow_sw}
+        extra = []
+        src_der = set()
+        for gi, gt, gname in graph_calls:
+            if ev["source"] == gname:
+                src_der |= set(der[gi])
+        for j, blk in enumerate(b.blocks):
+            tt = blk["term"]
+            if blk.get("cleanup") or tt["k"] != "switch" or j in known:
+                continue
+            if not any(cfg.find_path(b, [0], [i], removed_edges=[(j, tg)]) is None for tg in cfg.succs(b, j)):
+                continue
+            pl = cfg.op_place(tt["d"])
+            dsw = [d for d in cfg.defs(b).get(pl[0], []) if d[0] != "partial"] if pl else []
+            okd = False
+            for d in dsw:
+                if d[0] == "assign" and d[2]["k"] == "discr" and (d[2]["p"][0] in src_der or cfg.origin(b, d[2]["p"])[0] in src_der):
+                    okd = True          # `if let Some(i) = first_edge(..).ok().filter(is_valid)` / match on its Result
+                if d[0] == "call" and (cfg.callee(d[2]) or "").endswith(("::is_valid", "::is_ok", "::is_some")) and d[2]["a"] and \
+                        ((cfg.op_place(d[2]["a"][0]) or [None])[0] in src_der or (cfg.op_origin(b, d[2]["a"][0]) or (None,))[0] in src_der):
+                    okd = True
+            if not okd:
+                extra.append(b.loc(j))
+        ev["extra"] = extra
         out.append(ev)
     return out
 
@@ -147,6 +175,14 @@ def visit_once_rule(ctx):
             ok = bool(sws) and cfg.find_path(b, [0], pu, removed_edges=[sws[0]["false_edge"]]) is None
         ctx.ob("R14b", "process_index", ok, "an index is processed only if it was not visited before" if ok else
                "process_index can process an already visited element", b.where)
+        # ... and nothing is skipped before that test: every success return lies behind visit_index (an element taken
+        # from the work list is either new - then it is handled and expanded - or was seen before)
+        okb, errb, unk = cfg.ret_class_blocks(b)
+        p0 = cfg.find_path(b, [0], okb + unk, avoid=[i for i, t in vi]) if vi else [0]
+        ctx.ob("R14b", "process_index:no-skip", bool(vi) and p0 is None,
+               "every success path consults visit_index" if vi and p0 is None else
+               "process_index can drop an element from the work list without consulting visit_index (%s): elements only "
+               "reachable through it are missing from the result" % (cfg.path_str(b, p0) if p0 else "-"), b.where)
     b = ctx.anchor("R14b", SI + "process_unvisited_index")
     if b:
         tbl = {}
@@ -197,6 +233,11 @@ def run(ctx):
                    "%s expand: push for `%s` is %s (expected branch=%s, follow-guarded=%s, direction=%s)" % (
                        k, src, {x: e[x] for x in ("op", "branch", "follow", "source")} if e else "missing", branch, follow, want_dir),
                    b.loc(e["bb"]) if e else b.where)
+            okx = e is not None and not e.get("extra")
+            ctx.ob("R14a", "%s:%s:no-extra-filter" % (k, src), okx,
+                   "decided only by is_node / follow / validity of the index" if okx else
+                   "%s expand: the push for `%s` also depends on a test at %s: an element reachable in the graph is left out of "
+                   "some traversals" % (k, src, e.get("extra") if e else "?"), b.loc(e["bb"]) if e else b.where)
             okd = e is not None and e["delta"] == delta
             ctx.ob("R14c", "%s:%s:distance" % (k, src), okd,
                    "distance + %d" % delta if okd else "%s expand: `%s` push changes the distance by %s, expected +%d" % (
